@@ -21,17 +21,18 @@ Theorem C20_cmd_total_guarded : forall g, all_guarded g = true ->
 Proof. exact cmd_total. Qed.
 Print Assumptions C20_cmd_total_guarded.
 
-(* the recursion scheme shared by the mermaid generators and the pass-through walk terminates: with the visited
-   list consulted, fuel above the number of not-yet-visited keys is never exhausted and, if no lookup panics,
+(* the recursion scheme shared by the mermaid generators and the pass-through walk terminates, whether a key stays
+   recorded for the whole run (persist = true, mermaid) or only while its callee is expanded (false, IntsBuilder.walking):
+   with the visited list consulted, fuel above the number of not-yet-visited keys is never exhausted and, if no lookup panics,
    the walk ends in Ok or Err - for every graph (cycles, self loops, dangling targets) *)
 Theorem C20_walk_terminates : forall (node key : Type) (keqb : key -> key -> bool),
   (forall a b, keqb a b = true <-> a = b) ->
-  forall (expand : node -> outcome * list (@edge node key)) (onerr : outcome) (U : list key),
+  forall (expand : node -> outcome * list (@edge node key)) (onerr : outcome) (persist : bool) (U : list key),
   (forall n o es pre k n', expand n = (o, es) -> In (pre, Some (k, n')) es -> In k U) ->
   (forall n, fine (fst (expand n)) = true) ->
   (forall n pre tgt, In (pre, tgt) (snd (expand n)) -> fine pre = true) ->
   fine onerr = true ->
-  forall n, fine (fst (walk keqb expand onerr true (S (List.length U)) n [])) = true.
+  forall n, fine (fst (walk keqb expand onerr true persist (S (List.length U)) n [])) = true.
 Proof. exact @walk_total. Qed.
 Print Assumptions C20_walk_terminates.
 
